@@ -22,12 +22,12 @@ ID = "C13"
 TITLE = "Union dispatch shortcuts equal try-each-alternative semantics"
 RULE = ("Hypothesis draws a program whose root is a Union / Optional of 2-4 alternatives biased to overlap (int/float/bool, "
         "str vs Literal vs str-Enum, List vs Tuple vs Set, two objects sharing field names, nested unions, Unsupported members), "
-        "or a discriminated union (Annotated discriminator with default / explicit mapping, inherited @discriminator, TypedDict "
-        "members), options (incl. coerce) and 6-12 data (valid data of each alternative, mutants, atoms).  Oracle (no model): the "
+        "or (18%) a discriminated union: Annotated[Union[2-3 generated dataclasses with any field feature], discriminator(alias[, explicit "
+        "mapping])], options (incl. coerce, dynamic aliaser) and 6-12 data (valid data of each alternative, mutants, atoms).  Oracle (no model): the "
         "union accepts iff some alternative alone accepts, with a canon-equal value to the first accepting alternative; "
-        "discriminated: equals deserialize(A_k, d without/with tag) for the mapped k, rejected when the tag is absent/unknown/unhashable; "
-        "serialize(Union, v) == serialize(A_j, v) (+ discriminator key) for the first alternative whose class matches, and it "
-        "round-trips.  Non-trivial: >= 2 alternatives accept the datum's JSON class, or the compiled strategy is a shortcut "
+        "discriminated: verdict and value equal deserialize(A_k, d without the tag) for the mapped k (when A_k has pattern / additional "
+        "fields that can take the tag itself: only when A_k gives one verdict with and without it), rejected when the tag is "
+        "absent / unknown / unhashable; serialize(Union, v) == serialize(A_k, v) + {aliased tag: key}.  Non-trivial: >= 2 alternatives accept the datum's JSON class, or the compiled strategy is a shortcut "
         "(UnionByTypeMethod / OptionalMethod / DiscriminatorMethod).  Distinct = hash(type shape, datum shape, accepting set).")
 ASSUMPTIONS = ["alternatives evaluated alone go through the same public deserialize (differential / metamorphic relation, not a model)"]
 BUDGET = {"quick": 900, "thorough": 14000}
@@ -35,8 +35,8 @@ SHARDS = {"quick": 8, "thorough": 16}
 MIN_NONTRIVIAL = {"quick": 1500, "thorough": 30000}
 TECHNIQUE = "property-based testing (Hypothesis): metamorphic try-each-alternative oracle over generated overlapping and discriminated unions"
 LEVEL_TEXT = ("Exploration: ~55k (quick) / ~1.5M (thorough) (union type, options, datum) cases compared with the try-in-order semantics "
-              "computed with apischema on each alternative alone; discriminated and tagged unions compared with the mapped alternative.")
-LEVEL_NOTE = "Trusted: deserialize on a single alternative (decided by C01), the canon comparison. TaggedUnion covered by a fixed family of programs."
+              "computed with apischema on each alternative alone; discriminated unions compared with the mapped alternative (deserialization and serialization).")
+LEVEL_NOTE = "Trusted: deserialize on a single alternative (decided by C01), the canon comparison. Not generated: inherited @discriminator, TypedDict members, TaggedUnion."
 
 OVERLAP_FAMILIES = [
     [{"k": "int"}, {"k": "float"}, {"k": "bool"}],
@@ -56,6 +56,15 @@ def union_programs(draw, cfg):
     n = draw(st.integers(2, 4))
     mode = draw(st.integers(0, 99))
     alts = []
+    if mode < 18 and cfg.get("discriminated", True):
+        # discriminated union of 2-3 dataclasses (any generated field feature, incl. flattened / pattern / additional
+        # fields), explicit or default (class name) mapping
+        idxs = [g.new_class(1, flavor="dataclass") for _ in range(draw(st.integers(2, 3)))]
+        alts = [{"k": "cls", "i": i} for i in idxs]
+        alias = pick(draw, ["kind", "type", "$t", "kind_of"])
+        mapping = {f"k{j}": j for j in range(len(alts))} if chance(draw, 0.6) else None
+        g.prog["root"] = {"k": "union", "alts": alts, "disc": {"alias": alias, "mapping": mapping}}
+        return g.prog
     if mode < 35:
         fam = pick(draw, OVERLAP_FAMILIES)
         alts = [copy.deepcopy(x) for x in draw(st.lists(st.sampled_from(fam), min_size=2, max_size=min(n, len(fam)), unique_by=repr))]
@@ -103,10 +112,34 @@ def union_programs(draw, cfg):
     return g.prog
 
 
+def disc_keys(prog, t):
+    disc = t["disc"]
+    if disc.get("mapping"):
+        return {key: i for key, i in disc["mapping"].items()}
+    return {prog["classes"][a["i"]]["name"]: j for j, a in enumerate(t["alts"])}
+
+
 def data_fn(draw, prog, t, opts):
     alts = [a for a in t["alts"] if a["k"] not in ("unsup", "undefined")]
     r = draw(st.integers(0, 99))
     dyn = opts["aliaser"]
+    if t.get("disc"):
+        keys = disc_keys(prog, t)
+        alias = build.ALIASERS[dyn](t["disc"]["alias"])
+        key = pick(draw, sorted(keys))
+        d = gen.valid(draw, prog, alts[keys[key]] if r < 80 else pick(draw, alts), dyn)
+        if r >= 45 and r < 70:
+            d, _, _ = gen.mutants(draw, d, 1)
+        if not isinstance(d, dict):
+            return d, "disc_mutant"
+        d = dict(d)
+        if r < 88:
+            d[alias] = key
+            return d, "disc_tagged"
+        if r < 92:
+            return d, "disc_untagged"
+        d[alias if r < 97 else t["disc"]["alias"]] = pick(draw, ["zz", 1, None, [key], key.upper(), key + " "])
+        return d, "disc_bad_tag"
     if r < 45:
         return gen.valid(draw, prog, pick(draw, alts), dyn), "valid_alt"
     if r < 75:
@@ -161,7 +194,87 @@ def evaluate(case, ctx):
         b.close()
 
 
+def _has_open_fields(cd) -> bool:
+    """pattern / additional-properties aggregate fields can swallow the discriminator key itself"""
+    return any(isinstance(f.get("agg"), dict) or f.get("agg") == "additional" for f in cd["fields"])
+
+
+def _evaluate_disc(case, ctx, b, prog, opts):
+    kw = tdcase.api_kwargs(opts)
+    root, tp = prog["root"], b.root
+    alts = root["alts"]
+    alt_tps = [b.typeof(a) for a in alts]
+    keys = disc_keys(prog, root)
+    aliaser = build.ALIASERS[opts.get("aliaser", "id")]
+    alias = aliaser(root["disc"]["alias"])
+    node = {"mapping": "explicit" if root["disc"].get("mapping") else "default", "coerce": bool(opts.get("coerce")), "aliaser": opts.get("aliaser", "id")}
+    try:
+        deserialization_method(tp, **kw)
+    except Exception as e:
+        ctx.count()
+        ctx.violation({"kind": "compile_crash", "exc": type(e).__name__, **node}, {"prog": prog, "opts": opts, "data": []}, repr(e))
+        return
+    ctx.h("strategy:DiscriminatorMethod")
+    for item in case["data"]:
+        d = item["d"]
+        ctx.count()
+        single = {"prog": prog, "opts": opts, "data": [item]}
+        got, res = run(tp, d, kw)
+        if got == "crash":
+            ctx.h("crash_routed_to_C03")
+            continue
+        tagged = isinstance(d, dict) and alias in d
+        try:
+            k = keys.get(d[alias]) if tagged else None
+        except TypeError:  # unhashable tag
+            k = None
+        if k is None:
+            if got == "ok":
+                ctx.violation({"dir": "accepted_without_valid_tag", **node, "datum": tdcase.json_class(d)}, single,
+                              f"{tdcase.compact(d, 200)} has no valid discriminator {alias!r} (keys {sorted(keys)}), the union returns {res!r}"[:900])
+            ctx.h("disc:no_valid_tag")
+            continue
+        cd = prog["classes"][alts[k]["i"]]
+        without = {kk: vv for kk, vv in d.items() if kk != alias}
+        o_without = run(alt_tps[k], without, kw)
+        o_with = run(alt_tps[k], d, kw)
+        if "crash" in (o_without[0], o_with[0]):
+            ctx.h("crash_routed_to_C03")
+            continue
+        sig = {**node, "flatten": any(f.get("agg") == "flatten" for f in cd["fields"]), "open_fields": _has_open_fields(cd), "datum": item.get("tag")}
+        if _has_open_fields(cd):
+            # the tag may legitimately end up in (or be rejected by) a pattern / additional-properties field: only the
+            # cases where the alternative gives the same verdict with and without the tag are decided
+            if o_without[0] == o_with[0] != got:
+                ctx.violation({"dir": "verdict_differs", **sig}, single,
+                              f"mapped alternative {cd['name']} {o_with[0]} {tdcase.compact(d, 200)} with and without the tag, the union: {got} {getattr(res, 'errors', res)!r}"[:900])
+        elif o_without[0] != got:
+            ctx.violation({"dir": "union_rejects" if got == "err" else "union_accepts", **sig}, single,
+                          f"mapped alternative {cd['name']} alone: {o_without[0]} on {tdcase.compact(without, 200)}; the union on the tagged datum: {got} {getattr(res, 'errors', res)!r}"[:900])
+        elif got == "ok" and not M.canon_eq(M.canon(res), M.canon(o_without[1])):
+            ctx.violation({"dir": "value_differs", **sig}, single, f"mapped alternative gives {o_without[1]!r}, union gives {res!r}"[:900])
+        # serialization: the image of the mapped alternative plus the tag, and it comes back
+        if got == "ok":
+            try:
+                skw = {"aliaser": aliaser, "additional_properties": bool(opts.get("additional_properties"))}
+                img_u = serialize(tp, res, **skw)
+                img_a = serialize(alt_tps[k], res, **skw)
+            except Exception as e:
+                ctx.h("serialize_raises_routed_to_C04")
+            else:
+                expect = dict(img_a)
+                expect.setdefault(alias, d[alias])
+                if img_u != expect and type(res) is alt_tps[k]:
+                    ctx.violation({"dir": "serialized_image_differs", **sig}, single,
+                                  f"serialize(union, {res!r}) = {img_u!r}; alternative image + tag = {expect!r}"[:900])
+        ctx.nontriv([tdcase.shape(root, prog, 2), tdcase.dshape(d, 2), k, node])
+        ctx.sample({"type": b.source.split("ROOT = ")[-1].strip(), "options": opts, "datum": d, "mapped": cd["name"], "outcome": got})
+        ctx.h("disc:" + got)
+
+
 def _evaluate(case, ctx, b, prog, opts):
+    if prog["root"].get("disc"):
+        return _evaluate_disc(case, ctx, b, prog, opts)
     kw = tdcase.api_kwargs(opts)
     root = prog["root"]
     tp = b.root
